@@ -85,7 +85,8 @@ def run(tier, seed):
     wd = common.workdir("C05-race")
     log = os.path.join(wd, "race")
     env = dict(common.GOENV, GORACE="halt_on_error=0 log_path=%s exitcode=0" % log)
-    variants = [["-g", "8,8,16,16,4,32" if quick else "2,8,16,32,64,8,16,4", "-n", 20 if quick else 100, "-spec-every", 0],
+    variants = [["-g", "8,8,16,16,4,32" if quick else "2,8,16,32,64,8,16,4", "-n", 30 if quick else 100, "-spec-every", 0],
+                ["-g", "4,16,8", "-n", 30, "-spec-every", 0, "-procs", 2],   # few OS threads: goroutines interleave by preemption
                 # whole-specification validations under the race detector are ~10x slower: few goroutines, every 4th call
                 ["-g", "3,4" if quick else "2,4,8", "-n", 8 if quick else 24, "-spec-every", 4]]
     if not quick:
